@@ -14,82 +14,82 @@ name in order of first occurrence with per-name value order preserved; it fails,
 theorem parseQuery_eq_spec (q : Bytes) :
     parseQuery q =
       optToOutcome .MalformedQueryString ((refQueryPairs q).map fun ps => groupPairs (ps.map encPair)) := by
-  sorry
+  exact parseQuery_eq_spec' q
 
 /-- Grouping loses and invents nothing: the map's pairs are a permutation of the input pairs, and
 the values of each name keep their relative order. -/
 theorem groupPairs_perm (l : List (Bytes × Bytes)) : (flattenMap (groupPairs l)).Perm l := by
-  sorry
+  exact groupPairs_perm' l
 
 theorem groupPairs_order (l : List (Bytes × Bytes)) (k : Bytes) :
     (flattenMap (groupPairs l)).filter (·.1 = k) = l.filter (·.1 = k) := by
-  sorry
+  exact groupPairs_order' l k
 
 /-- The canonical query string of a parsed query is the reference one of its decoded pairs. -/
 theorem canonQuery_eq_ref (q : Bytes) (ps : List (Bytes × Bytes)) (h : refQueryPairs q = some ps) :
     (parseQuery q).map canonQuery = .ok (refCanonQuery ps) := by
-  sorry
+  rw [parseQuery_canon, h]; rfl
 
 /-- Independence of hash-iteration order: any reordering of the map's entries gives the same string. -/
 theorem canonQuery_map_order_invariant (m m' : QueryMap) (h : m.Perm m') : canonQuery m = canonQuery m' := by
-  sorry
+  exact canonQuery_perm h
 
 /-- Independence of parameter order: the reference string depends only on the multiset of pairs. -/
 theorem refCanonQuery_perm_invariant (ps ps' : List (Bytes × Bytes)) (h : ps.Perm ps') :
     refCanonQuery ps = refCanonQuery ps' := by
-  sorry
+  exact refCanonQuery_perm h
 
 /-- Hence permuting the `&`-separated components of a query does not change its canonical form. -/
 theorem canonQuery_component_perm_invariant (q q' : Bytes)
     (h : (splitOn 0x26 q).Perm (splitOn 0x26 q')) :
     (parseQuery q).map canonQuery = (parseQuery q').map canonQuery := by
-  sorry
+  exact parseQuery_canon_of_comp_perm q q' h
 
 /-- Empty `&&` components are ignored. -/
 theorem refQueryPairs_ignores_empty (q q' : Bytes)
     (h : (splitOn 0x26 q).filter (· ≠ []) = (splitOn 0x26 q').filter (· ≠ [])) :
     (parseQuery q).map canonQuery = (parseQuery q').map canonQuery := by
-  sorry
+  exact parseQuery_canon_of_filter_eq q q' h
 
 /-- Independence of wire spelling: components that decode alike canonicalise alike. -/
 theorem canonQuery_respell_invariant (q q' : Bytes)
     (h : ((splitOn 0x26 q).filter (· ≠ [])).map decodeComponent
         = ((splitOn 0x26 q').filter (· ≠ [])).map decodeComponent) :
     (parseQuery q).map canonQuery = (parseQuery q').map canonQuery := by
-  sorry
+  exact parseQuery_canon_of_decode_eq q q' h
 
 /-- The emitted pairs are sorted by encoded name, then by encoded value, bytewise. -/
 theorem canonQuery_sorted (m : QueryMap) :
     (sortBy pairLe (queryPairs m)).Pairwise (fun x y => pairLe x y = true) := by
-  sorry
+  exact sortBy_pairwise pairLe_total pairLe_trans _
 
 /-- `pairLe` is the lexicographic order: by name, and among equal names by value. -/
 theorem pairLe_spec (x y : Bytes × Bytes) :
     pairLe x y = true ↔ (x.1 ≠ y.1 ∧ bytesLe x.1 y.1 = true) ∨ (x.1 = y.1 ∧ bytesLe x.2 y.2 = true) := by
-  sorry
+  exact pairLe_iff x y
 
 /-- `bytesLe` is a total order on byte strings (bytewise, a proper prefix first). -/
 theorem bytesLe_total_order :
     (∀ a b, bytesLe a b = true ∨ bytesLe b a = true) ∧
     (∀ a b c, bytesLe a b = true → bytesLe b c = true → bytesLe a c = true) ∧
     (∀ a b, bytesLe a b = true → bytesLe b a = true → a = b) := by
-  sorry
+  exact ⟨bytesLe_total, bytesLe_trans, bytesLe_antisymm⟩
 
 /-- Every pair is listed — duplicates, empty names and empty values included — except those named
 `X-Amz-Signature`: the sorted list is a permutation of the map's pairs minus that name. -/
 theorem canonQuery_lists_all (m : QueryMap) :
     (sortBy pairLe (queryPairs m)).Perm ((flattenMap m).filter fun kv => kv.1 ≠ X_AMZ_SIGNATURE) := by
-  sorry
+  rw [← queryPairs_eq_filter]; exact sortBy_perm _ _
 
 /-- The finding repaired by the `fix:` commit: names that extend another name by a byte below `=`. -/
 theorem sorted_counterexample_now_holds :
     (parseQuery b!"a=2&a-=1").map canonQuery = .ok b!"a=2&a-=1" := by
-  sorry
+  decide
 
 /-- Errors are `MalformedQueryString`; no panic. -/
 theorem parseQuery_err_kind (q : Bytes) :
     (∀ k, parseQuery q = .err k → k = .MalformedQueryString) ∧ (∀ site, parseQuery q ≠ .panic site) := by
-  sorry
+  exact parseQuery_err_kind' q
 
 example : (parseQuery b!"b=%20+x&&a=2&a-=1&a=1&X-Amz-Signature=ff&=").map canonQuery
     = .ok b!"=&a=1&a=2&a-=1&b=%20%20x" := by decide
